@@ -82,7 +82,9 @@ def main():
             continue
         meta = json.load(open(os.path.join(d, 'meta.json')))
         checks = meta.get('caught_by') or [meta['property']]
-        patch = os.path.join(d, 'patch.diff')
+        patch = os.path.join(d, 'patch-rebased.diff')
+        if not os.path.exists(patch):
+            patch = os.path.join(d, 'patch.diff')
 
         def prep(copy, patch=patch):
             subprocess.run(['git', 'init', '-q'], cwd=copy, check=True)
